@@ -169,6 +169,25 @@ func c01Case(c *fw.Ctx, tree *spec.Spec, r *rng.R) {
 		c.Violate("roundtrip-parse-error", in(), "parse of String() returns no error", fmt.Sprintf("error: %v", err))
 		return
 	}
+	// Equals on parse results nobody has read yet (a parser may postpone work until the first read): as the argument of
+	// the original's Equals, and two untouched parse results against each other; judged below, once the content is known
+	// to be right
+	untouchedOK, untouchedWhat := true, ""
+	if tree.Size() < 5000 {
+		pa, _, _ := parseRoot(tree.K, text)
+		pb, _, _ := parseRoot(tree.K, text)
+		pc, _, _ := parseRoot(tree.K, text)
+		if pa != nil && pb != nil && pc != nil {
+			drive.Protect(func() {
+				if !equalsOf(real, pa) {
+					untouchedOK, untouchedWhat = false, "original.Equals(parse result that was not read before)"
+				} else if !equalsOf(pb, pc) {
+					untouchedOK, untouchedWhat = false, "two parse results of the same text, neither read before"
+				}
+			})
+			c.Count("equals_on_untouched_parse_results")
+		}
+	}
 	w, werr := drive.Walk(parsed)
 	if werr != nil {
 		c.Violate("roundtrip-unwalkable", in(), "a consistent container", werr.Error())
@@ -186,6 +205,10 @@ func c01Case(c *fw.Ctx, tree *spec.Spec, r *rng.R) {
 			sig = "roundtrip-key-differs"
 		}
 		c.Violate(sig, in(), "re-parsed container equals the original tree", d+"\nre-parsed = "+spec.Trunc(w.Canon(), 600))
+		return
+	}
+	if !untouchedOK {
+		c.Violate("roundtrip-equals-false", in(), "Equals is true: "+untouchedWhat+" (the walker sees identical content)", "Equals returned false")
 		return
 	}
 	for rep := 0; rep < 3; rep++ { // repeated: object comparison walks a map in a different order each time
